@@ -222,8 +222,8 @@ func (g *genCtx) nextEvent(family string) sut.Event {
 			e.Redir = "redir"
 		}
 	case "Probe":
-		if g.chance(0.3) {
-			e.K = g.pick("alt1", "alt2", "alt3")
+		if g.chance(0.4) {
+			e.K = g.pick("alt1", "alt2", "alt3", "bare", "bare")
 		}
 	case "Logout":
 		e.Method = c.LogoutMethod
